@@ -61,11 +61,13 @@ const (
 	relFooter    = opc.RelPrefix + "footer"
 )
 
-// The library writes a note reference as a run whose whole text is "[N]" (footnote) or
-// "[尾注N]" (endnote); N is the id of the note it created in the notes part.
+// The library writes a note reference as the text "[N]" (footnote) or "[尾注N]" (endnote): a run of its
+// own (AddFootnote/AddEndnote) or appended to the text of an existing run (AddFootnoteToRun); N is the id
+// of the note the call created in the notes part. Every such marker in a run of the main part is a reference
+// (generated texts contain no brackets).
 var (
-	fnMarker = regexp.MustCompile(`^\[(\d+)\]$`)
-	enMarker = regexp.MustCompile(`^\[尾注(\d+)\]$`)
+	fnMarker = regexp.MustCompile(`\[(\d+)\]`)
+	enMarker = regexp.MustCompile(`\[尾注(\d+)\]`)
 )
 
 func observe(b []byte) (*obs, error) {
@@ -186,10 +188,13 @@ func observe(b []byte) (*obs, error) {
 			case "r":
 				if n == o.Main {
 					txt := x.TextOf(canon.W, "t")
-					if m := fnMarker.FindStringSubmatch(txt); m != nil {
-						o.FnRefs = append(o.FnRefs, ref{Part: n, Kind: "marker", Val: m[1]})
-					} else if m := enMarker.FindStringSubmatch(txt); m != nil {
-						o.EnRefs = append(o.EnRefs, ref{Part: n, Kind: "marker", Val: m[1]})
+					if strings.Contains(txt, "[") {
+						for _, m := range fnMarker.FindAllStringSubmatch(txt, -1) {
+							o.FnRefs = append(o.FnRefs, ref{Part: n, Kind: "marker", Val: m[1]})
+						}
+						for _, m := range enMarker.FindAllStringSubmatch(txt, -1) {
+							o.EnRefs = append(o.EnRefs, ref{Part: n, Kind: "marker", Val: m[1]})
+						}
 					}
 				}
 			}
